@@ -3,6 +3,7 @@ package main
 import (
 	"go/constant"
 	"go/token"
+	"go/types"
 
 	"golang.org/x/tools/go/ssa"
 )
@@ -224,7 +225,12 @@ func proveLELen(v, y ssa.Value, fs []fact, depth int) bool {
 		if f.x == v && isLenOf(f.y, y) && (f.r == relLT || f.r == relLE || f.r == relEQ) {
 			return true
 		}
-		// v < k-th … not needed
+		// transitivity: v <= w and w <= len(y)
+		if f.x == v && (f.r == relLT || f.r == relLE || f.r == relEQ) && f.y != v {
+			if _, isConst := f.y.(*ssa.Const); !isConst && depth < 3 && proveLELen(f.y, y, fs, depth+2) {
+				return true
+			}
+		}
 	}
 	if ph, ok := v.(*ssa.Phi); ok {
 		for i, e := range ph.Edges {
@@ -246,6 +252,11 @@ func proveLTLen(v, y ssa.Value, fs []fact, depth int) bool {
 	rf := relFacts(fs)
 	for _, f := range rf {
 		if f.x == v && isLenOf(f.y, y) && f.r == relLT {
+			return true
+		}
+	}
+	if k, ok := constIntOf(v); ok {
+		if n, known := knownLen(y); known && k < n {
 			return true
 		}
 	}
@@ -371,4 +382,41 @@ func proveGE0(v ssa.Value, fs []fact, depth int) bool {
 		}
 	}
 	return false
+}
+
+
+// knownLen: the length of y is a compile-time constant: a full slice of an array, or the result
+// of a module function whose every return is such a slice.
+func knownLen(y ssa.Value) (int64, bool) {
+	arrLen := func(v ssa.Value) (int64, bool) {
+		sl, ok := v.(*ssa.Slice)
+		if !ok || sl.Low != nil || sl.High != nil {
+			return 0, false
+		}
+		if p, isP := sl.X.Type().Underlying().(*types.Pointer); isP {
+			if a, isA := p.Elem().Underlying().(*types.Array); isA {
+				return a.Len(), true
+			}
+		}
+		return 0, false
+	}
+	if n, ok := arrLen(y); ok {
+		return n, true
+	}
+	call, ok := y.(*ssa.Call)
+	if !ok || call.Common().StaticCallee() == nil || len(call.Common().StaticCallee().Blocks) == 0 {
+		return 0, false
+	}
+	var n int64 = -1
+	good := true
+	allInstrs(call.Common().StaticCallee(), func(_ *ssa.BasicBlock, in ssa.Instruction) {
+		if r, isR := in.(*ssa.Return); isR && len(r.Results) == 1 {
+			k, ok := arrLen(r.Results[0])
+			if !ok || (n >= 0 && n != k) {
+				good = false
+			}
+			n = k
+		}
+	})
+	return n, good && n >= 0
 }
